@@ -168,3 +168,34 @@ func vh_C06_rt_fsetstat() {
 	vAssert(err == nil && vBytesEq(yb, b), "FSETSTAT cross-codec bytes")
 	vEmit("wire", b)
 }
+
+// the extended-attribute list on its own, with two and three pairs also in the
+// quick tier (the flavours above carry at most one there): encode per draft,
+// decode back the same pairs, and consume exactly the block - what follows it
+// (the next NAME entry, say) is left untouched (added after seeded change C06-d)
+func vh_C06_rt_filestat_extended() {
+	fs := &FileStat{Size: vNondetU64()}
+	n := 2 + vChoice(2)
+	for i := 0; i < n; i++ {
+		fs.Extended = append(fs.Extended, StatExtended{ExtType: vNondetStringC(2), ExtData: vNondetStringC(2)})
+	}
+	flags := uint32(sshFileXferAttrExtended)
+	if vNondetBool() {
+		flags |= sshFileXferAttrSize
+	}
+	b := marshalFileStat(nil, flags, fs)
+	vAssert(vBytesEq(b, refAttrs(nil, flags, fs)), "extended attributes: layout per draft")
+	tail := vNondetBytesC(3)
+	got, rest, err := unmarshalFileStat(flags, append(append([]byte{}, b...), tail...))
+	vAssert(err == nil && got != nil, "extended attributes decode")
+	vAssert(vBytesEq(rest, tail), "the decoder consumes exactly the attribute block")
+	vAssert(len(got.Extended) == n, "as many pairs as were encoded")
+	if len(got.Extended) == n {
+		for i := 0; i < n; i++ {
+			vAssert(got.Extended[i].ExtType == fs.Extended[i].ExtType && got.Extended[i].ExtData == fs.Extended[i].ExtData, "every pair comes back as encoded")
+		}
+	}
+	if flags&sshFileXferAttrSize != 0 {
+		vAssert(got.Size == fs.Size, "size comes back")
+	}
+}
